@@ -169,6 +169,15 @@ CLAIMED = {
               'yet covered; two defects found and fixed'),
         technique='CBMC memory-safety checking of tokeniser, date parser and date formatter on exact-size objects',
         design='3/C10'),
+    'C09': dict(
+        text=('Bounded model checking of dt_strfd followed by dt_strpd on lib/date-core.c for enumerated date formats '
+              '(numeric, abbreviated and one-letter names, ordinals, unpadded, Roman, day-of-year, ISO week, '
+              'count-weekday forms, and each calendar default with the format-less parser): for every day of the year '
+              'window the parsed value is the original day in the original representation and the whole text is consumed.'),
+        note=('formats enumerated (26 + defaults); English names only; long names left out (cbmc string-copy model gave '
+              'non-replaying counterexamples); time, date-time, %s, %Z formats and shipped locales not yet covered'),
+        technique='CBMC bounded model checking of format/parse round trips per enumerated format',
+        design='3/C09'),
 }
 
 NA = {}
